@@ -47,6 +47,10 @@ def sig_of(rec):
     recs = st.get("subs", []) if op == "update" else [st]
     if any(len(u.get(k) or []) > 246 for u in recs for k in ("login", "old")):
         kind += "{login>246}"
+    if any(len(u.get(k) or []) > 250 for u in recs for k in ("login", "old")):
+        kind += "{login>250}"
+    if any((u.get(k) or [0])[0] == 10 for u in recs for k in ("login", "old", "name")):
+        kind += "{lead-nl}"
     diffs = d.get("diffs", {})
     views = ",".join("%s:%s" % (name, "+".join(sorted(diffs.get(k, [])))) for k, name in VIEW_NAMES if diffs.get(k))
     return "C15/%s/%s" % (kind, views or "?")
